@@ -169,14 +169,24 @@ def ending_steps(e):
         return []
     if how in ('stop', 'stoppipeline', 'stopstepgroup'):
         return ['pypyr.steps.' + how]
-    if how in ('parser-error', 'missing-pipeline', 'missing-group'):
+    if how in ('parser-error', 'missing-pipeline', 'missing-group', 'startup-error'):
         return []
     return ['c18boom']
 
 
-def gen_cli_case(rng, subproc=False):
+STARTUP = ['bad-local-config-yaml', 'local-config-not-a-mapping', 'missing-global-config',
+           'logpath-missing-dir', 'control']
+
+
+def gen_cli_case(rng, subproc=False, startup=None):
+    """startup: a fault while main sets itself up (config look-up, log handlers), before the
+    pipeline is even loaded; 'control' = the same start-up path without a fault."""
     fname = rng.choice(FNAMES)
     ending = gen_ending(rng, subproc)
+    if startup == 'control':
+        ending = {'how': rng.choice(['complete', 'stop'])}
+    elif startup:
+        ending = {'how': 'startup-error', 'startup': startup}
     how = ending['how']
     # --- options (structured; argv is rendered from them)
     items = []
@@ -197,7 +207,9 @@ def gen_cli_case(rng, subproc=False):
     log = 50 if lv < (0.9 if subproc else 0.7) else rng.choice([None, 5, 0, 10, 25, 40, 9, 1])
     if log is not None:
         items.append([rng.choice(['log', 'log', 'loglevel']), str(log)])
-    if rng.random() < 0.04:
+    if startup == 'logpath-missing-dir':
+        items.append(['logpath', TMP + '/no-such-dir/log.txt'])
+    elif rng.random() < 0.04:
         items.append(['logpath', TMP + '/log.txt'])
     rng.shuffle(items)
     if groups is not None and (rng.random() < 0.08 or how == 'missing-group'):
@@ -275,6 +287,8 @@ def gen_cli_case(rng, subproc=False):
                      'failure': failure, 'dir': TMP + '/mods' if use_dir else None}}
     if 'boom' in ending:
         case['boom'] = ending['boom']
+    if startup:
+        case['startup'] = startup
     return case
 
 
@@ -304,6 +318,8 @@ def generate(rng, n, tier):
     n_sub = min(n_sub, max(4, n // 20))
     for _ in range(n_sub):
         cases.append(gen_cli_case(rng, subproc=True))
+    for i in range(10 if tier == 'quick' else 60):      # start-up faults, real child processes
+        cases.append(gen_cli_case(rng, subproc=True, startup=STARTUP[i % len(STARTUP)]))
     rest = max(0, n - len(cases))
     for i in range(rest):
         r = rng.random()
